@@ -145,23 +145,23 @@ def parsePairs (n : Nat) (fs : List String) : Option (List (Bytes × Bytes)) :=
       pure ((kb, vb) :: ps)
     | _ => none
 
-/-- `C16E.reset srvName strict nCert certName… plainDoH` -/
+/-- `C16E.reset srvName strict nCert certName… plainDoH urlStrictColons` -/
 def parseEConf (f : List String) : Option E2E.Conf := do
   match f with
   | srv :: strict :: n :: rest =>
     let (names, rest') ← parseList (← n.toNat?) rest
     match rest' with
-    | [plain] =>
+    | [plain, strictColons] =>
       pure { srvName := ← hexDecode srv, strict := ← parseBool strict, certNames := names,
-             plainDoH := ← parseBool plain }
+             plainDoH := ← parseBool plain, urlStrictColons := ← parseBool strictColons }
     | _ => none
   | _ => none
 
-/-- `C16E.q proto slot peer sni sniValid method target host splitOk splitHost dnsOK edns qname nHdr (k v)…` -/
+/-- `C16E.q proto slot peer sni sniValid method target host splitOk splitHost dnsOK ipLitOK edns qname nHdr (k v)…` -/
 def parseEReq (f : List String) : Option E2E.Req := do
   match f with
   | proto :: _slot :: peer :: sni :: sniValid :: method :: target :: host :: splitOk :: splitHost ::
-      dnsOK :: edns :: qname :: nh :: hdrs =>
+      dnsOK :: ipLitOK :: edns :: qname :: nh :: hdrs =>
     pure {
       tr := ← parseTr proto
       sni := ← hexDecode sni
@@ -171,6 +171,7 @@ def parseEReq (f : List String) : Option E2E.Req := do
       host := ← hexDecode host
       hostSplit := optOf (← parseBool splitOk) (← hexDecode splitHost)
       dnsOK := ← parseBool dnsOK
+      ipLitOK := ← parseBool ipLitOK
       peer := ← hexDecode peer
       edns := ← hexDecode edns
       qname := ← hexDecode qname
